@@ -11,6 +11,7 @@ From NextestModel Require Import Base.Tac Proofs.BridgeTac.
 From NextestModel Require gen.GenGlue.
 From NextestModel Require Base.Str Model.Junit.
 From NextestModel Require Model.Dispatcher Model.Broadcast Proofs.Broadcast.
+From NextestModel Require Model.Overrides.
 From NextestModel Require Model.Filter Model.FutureQueue Model.Unit Model.Run Model.CliRun Model.ExecuteStream Proofs.ExecuteStream.
 Import ListNotations.
 Open Scope N_scope.
@@ -19,6 +20,7 @@ Module G := NextestModel.gen.GenGlue.Glue.
 Module MJ := NextestModel.Model.Junit.
 Module MFl := NextestModel.Model.Filter.
 Module MD := NextestModel.Model.Dispatcher.
+Module MO := NextestModel.Model.Overrides.
 Module MBc := NextestModel.Model.Broadcast.
 Module PBc := NextestModel.Proofs.Broadcast.
 Module ME := NextestModel.Model.ExecuteStream.
@@ -394,4 +396,50 @@ Proof.
     replace (MBc.running_units script (r ++ [u])) with (MBc.running_units script r ++ [u])
       by (destruct script; reflexivity).
     rewrite PBc.delivered_count_app. f_equal. destruct u as [id op]. destruct op; reflexivity.
+Qed.
+
+(* ---------------------------------------------------------------- the loop of TestSettings::new (Model/Overrides.v, C06) *)
+(* == block override_loop_body == *)
+(* "the first override that sets it wins", for one setting: an override that is skipped leaves the accumulator alone, one
+   that is considered fills it only when it is still empty *)
+Definition first_wins {V : Type} (skip : bool) (acc d : option V) : option V :=
+  if skip then acc else match acc with Some v => Some v | None => d end.
+(* Model/Overrides.v [step] -- the function C06's precedence theorems fold over the overrides -- is first_wins for every
+   setting, with the model's [skips] and the override's own value of that setting *)
+Lemma step_is_first_wins :
+  forall e t acc co s,
+    MO.step e t acc co s = first_wins (MO.skips e t co) (acc s) (MO.data_get s (MO.ov_data (snd co))).
+Proof. intros. unfold MO.step, first_wins. destruct (MO.skips e t co); reflexivity. Qed.
+
+Definition state_of (s : MO.ostate) : G.FinalConfig :=
+  G.mk_FinalConfig (MO.st_host s) (MO.st_host_test s) (MO.st_target s).
+Definition platform_of (host : bool) : G.BuildPlatform :=
+  if host then G.BuildPlatform_Host else G.BuildPlatform_Target.
+(* the eleven accumulators / the eleven optional settings of an override, as a function of the setting; the values are
+   opaque tokens of the generated function (it can only move them around) *)
+Definition settings_tuple (f : MO.setting -> option N) :=
+  (f MO.SPriority, f MO.SThreads, f MO.SExtraArgs, f MO.SRetries, f MO.SSlowTimeout, f MO.SLeakTimeout, f MO.STestGroup,
+   f MO.SSuccessOutput, f MO.SFailureOutput, f MO.SJunitSuccess, f MO.SJunitFailure).
+Definition gen_loop_body (st : G.FinalConfig) (p : G.BuildPlatform) (flt : option N) (m : bool)
+           (d acc : MO.setting -> option N) :=
+  G.override_loop_body st p flt
+    (d MO.SPriority) (d MO.SThreads) (d MO.SExtraArgs) (d MO.SRetries) (d MO.SSlowTimeout) (d MO.SLeakTimeout)
+    (d MO.STestGroup) (d MO.SSuccessOutput) (d MO.SFailureOutput) (d MO.SJunitSuccess) (d MO.SJunitFailure)
+    (acc MO.SPriority) (acc MO.SThreads) (acc MO.SExtraArgs) (acc MO.SRetries) (acc MO.SSlowTimeout) (acc MO.SLeakTimeout)
+    (acc MO.STestGroup) (acc MO.SSuccessOutput) (acc MO.SFailureOutput) (acc MO.SJunitSuccess) (acc MO.SJunitFailure) m.
+Ltac split_tuple := repeat match goal with |- (_, _) = (_, _) => apply f_equal2 end.
+(* one turn of the loop over the overrides: for every override state, test, filter verdict, accumulators and override
+   data the new accumulators are first_wins with the model's [skips], setting by setting (priority included). The
+   guards are decided first (they are booleans of the inputs), the eleven components are then compared one by one. *)
+Lemma gen_override_loop_body_is_model :
+  forall e t st o d acc,
+    gen_loop_body (state_of st) (platform_of (MO.t_host t)) (option_map (fun _ => 0) (MO.filter_of o))
+      (match MO.filter_of o with Some f => MO.e_filter e f (MO.t_id t) | None => true end) d acc =
+    settings_tuple (fun s => first_wins (MO.skips e t (st, o)) (acc s) (d s)).
+Proof.
+  intros e t st o d acc. destruct st as [h ht tg], t as [id host]. unfold MO.skips.
+  cbn [MO.t_id MO.t_host MO.st_host MO.st_host_test MO.st_target].
+  unfold gen_loop_body, settings_tuple, first_wins.
+  destruct (MO.filter_of o) as [f|]; [destruct (MO.e_filter e f id)|]; destruct h, ht, tg, host;
+    timeout 60 (bridge_norm; split_tuple; repeat (bridge_case; cbv beta iota); reflexivity).
 Qed.
